@@ -100,6 +100,26 @@ def run_acceptance(item):
     raise Violation('accepted_for_op_but_not_under_star', '%s %s %s resolves to %s' % (sel, algo, c, key))
   if not ok and key != R.NOQ:
     raise Violation('refused_for_op_but_let_through_under_star', '%s %s %s resolves to %s' % (sel, algo, c, key))
+  # ... and the same verdict when the pair arrives inside a loaded recipe (the
+  # list-of-dicts form save() writes; Quantizer(model, recipe) and
+  # load_quantization_recipe() take this route): never accepted there and
+  # resolved after having been refused as an update
+  if c.get('w') is not None:
+    rd = R.rule_dict(R.rule('.*', sel, algo, c))
+    rml = recipe_manager.RecipeManager()
+    okl, errl = core.call(rml.load_quantization_recipe, [rd])
+    if not okl and not isinstance(errl, ValueError):
+      raise Violation('refusal_not_valueerror', '%s %s %s (loaded recipe): %r' % (sel, algo, c, errl))
+    ok5, gotl = core.call(rml.get_quantization_configs, qtyping.TFLOperationName(sel), 'some/op;')
+    if not ok5:
+      raise Violation('loaded_rule_resolution_raises', '%s %s %s: %r' % (sel, algo, c, gotl))
+    keyl = str(getattr(gotl[0], 'value', gotl[0]))
+    if not ok and keyl != R.NOQ:
+      raise Violation('refused_for_op_but_accepted_from_loaded_recipe',
+                      '%s %s %s: load %s, resolves to %s' % (sel, algo, c, 'accepted' if okl else 'refused', keyl))
+    if ok and (not okl or keyl != algo or gotl[1] != cfg):
+      raise Violation('accepted_for_op_but_not_from_loaded_recipe',
+                      '%s %s %s: load %s (%r), resolves to %s' % (sel, algo, c, 'accepted' if okl else 'refused', errl, keyl))
   # ... and independent of what the manager already holds under that regex
   other = 'CONV_2D' if sel == 'FULLY_CONNECTED' else 'FULLY_CONNECTED'
   for first in (('*', R.DRQ8), (other, R.DRQ8)):
